@@ -294,6 +294,10 @@ func (pp *PreParams) Unmarshal(bytes []byte) error {
 		return fmt.Errorf("failed to unmarshal pre params: [%v]", err)
 	}
 
+	if pbPreParams.Data == nil || pbPreParams.CreationTimestamp == nil {
+		return fmt.Errorf("failed to unmarshal pre params: incomplete data")
+	}
+
 	pp.data = &keygen.LocalPreParams{
 		PaillierSK: &paillier.PrivateKey{
 			PublicKey: paillier.PublicKey{
